@@ -82,10 +82,11 @@ pub fn all_ops(s: &str, chars: &[char], st: &mut Stats) {
 pub fn owned_rule_ops(s: &str, st: &mut Stats) {
     for p in Prof::ALL {
         for rf in RuleFn::ALL {
-            let r = rule_owned(p, rf, s);
-            st.evaluations += 1;
-            if matches!(r, Out::Panic(_)) {
-                bad(&format!("{}(String)", rf.name()), s, p.name(), &r, st);
+            for (how, r) in [("String", rule_owned(p, rf, s)), ("String with spare capacity", rule_owned_roomy(p, rf, s))] {
+                st.evaluations += 1;
+                if matches!(r, Out::Panic(_)) {
+                    bad(&format!("{}({})", rf.name(), how), s, p.name(), &r, st);
+                }
             }
         }
     }
